@@ -306,8 +306,8 @@ Qed.
 Theorem profiles_composite ps cs : Forall valid ps -> Forall2 (fun p c => profile_cfg p = Some c) ps cs ->
   let fl := flatten_cfg (CComp cs) in
   Forall leaf_ok fl /\ Forall unstarted fl /\ existsb unknown_part fl = false /\
-  forall s nows, ordered s (fst (items_from s fl)) (snd (items_from s fl)) /\
-                 nondecr s (nexts nows (snd (items_from s fl)) (fst (items_from s fl))).
+  forall s m nows, ordered s m (fst (items_from s fl)) (snd (items_from s fl)) /\
+                   nondecr s (nexts nows (snd (items_from s fl)) (fst (items_from s fl))).
 Proof.
   intros Hv H2 fl.
   assert (A : Forall leaf_ok fl /\ Forall unstarted fl /\ existsb unknown_part fl = false).
@@ -326,8 +326,8 @@ Proof.
         split; [apply Forall_app; split; assumption|]. rewrite existsb_app, O3, I3. reflexivity. }
       apply (G (p :: ps') (c :: cs') Hv). constructor; assumption. }
   destruct A as (A1 & A2 & A3). split; [exact A1|]. split; [exact A2|]. split; [exact A3|].
-  intros s nows. pose proof (items_ordered fl s A1 A2) as Ho. split; [exact Ho|].
-  apply nexts_nondecr_nowin; [|exact Ho].
+  intros s m nows. pose proof (items_ordered fl s m A1 A2) as Ho. split; [exact Ho|].
+  apply (nexts_nondecr_nowin nows _ _ s m); [|exact Ho].
   rewrite items_windows; [exact A3|].
   eapply Forall_impl; [|exact A1]. intros x Hx. destruct x; cbn in *; auto.
 Qed.
